@@ -95,6 +95,9 @@ pub fn templates(v5: bool) -> Vec<(&'static str, Vec<u8>)> {
         t.push(("PUB1-alias", e5(&P5::Publish(Box::new(s5::Publish5 { qos: 1, pid: Some(2), topic: String::new(), topic_alias: Some(3), ..Default::default() })), &[])));
         t.push(("PUBACK-1-neg", e5(&P5::PubAck(s5::Ack5 { pid: 1, reason: 0x80, reason_string: Some("no".into()), ..Default::default() }), &[])));
     }
+    // (added last: the indices of the templates above are used by saved replay files)
+    // a CONNECT with unusual but well-formed contents: the largest keep-alive, a session kept, user name and password
+    t.push(("CONNECT-odd", e(P5::Connect(Box::new(s5::Connect5 { client_id: "y".into(), clean_start: false, keep_alive: 65_535, username: Some("u".into()), password: Some(b"p".to_vec()), ..Default::default() })), &[])));
     t
 }
 
@@ -112,7 +115,7 @@ fn unexpected(c: &Case, t: &[(&'static str, Vec<u8>)]) -> bool {
     let server = c.role.is_server();
     names(c, t).iter().any(|n| {
         let n = *n;
-        n == "CONNECT" && c.state != AppState::NoHandshake
+        (n == "CONNECT" || n == "CONNECT-odd") && c.state != AppState::NoHandshake
             || n == "CONNACK" && (server || c.state != AppState::NoHandshake)
             || (server && (n.starts_with("SUBACK") || n.starts_with("UNSUBACK") || n == "PINGRESP"))
             || (!server && (n.starts_with("SUBSCRIBE") || n.starts_with("UNSUBSCRIBE") || n == "PINGREQ"))
@@ -127,6 +130,10 @@ pub async fn run_case(c: Case) -> Result<CaseInfo, Failure> {
     cfg.v3.min_chunk_size = 4;
     cfg.v5.min_chunk_size = 4;
     let t = templates(c.role.is_v5());
+    if c.state == AppState::NoHandshake {
+        // (a client whose CONNECT names an authentication method: whatever the server sends instead of CONNACK is still unexpected)
+        cfg.v5.connect.auth_method = Some("m".into());
+    }
     let eut = Eut::start(c.role, &cfg).await;
     let app = eut.app().clone();
     let mut futs: Vec<Option<BoxFut<SendRes>>> = Vec::new();
@@ -255,7 +262,13 @@ pub async fn run_case(c: Case) -> Result<CaseInfo, Failure> {
             return Err(fail(&c, "input-not-consumed", format!("{} bytes left unread on a live connection after {:?}; log {:?}", eut.peer().unread(), names(&c, &t), crate::props::c03::brief_log(&app.events()))));
         }
         if c.state == AppState::NoHandshake {
-            // handshake not completed (e.g. nothing but a partial frame): fine, nothing else to probe
+            // handshake not completed (e.g. nothing but a partial frame): fine, nothing else to probe - except that a client
+            // which was sent a complete packet other than CONNACK first cannot go on waiting for a CONNACK as if nothing
+            // had happened (nobody would ever answer the server)
+            let first = c.seq.first().map(|i| t[usize::from(*i) % t.len()].0);
+            if !c.role.is_server() && first.is_some_and(|n| n != "CONNACK" && n != "PUB1-1-head" && n != "payload-tail") && !app.events().iter().any(|e| matches!(e, Ev::Handshake)) {
+                return Err(fail(&c, "connect-neither-fails-nor-completes", format!("the server answered the CONNECT with {:?}: the connect attempt has neither failed nor completed and nothing was written; log {:?}", names(&c, &t), crate::props::c03::brief_log(&app.events()))));
+            }
             labels.push("handshake-incomplete");
         } else if !streaming {
             // (2) alive and responsive
@@ -382,8 +395,8 @@ pub fn run(ctx: &Ctx, started: Instant) -> i32 {
     stats.merge(rnd);
     let report = Report {
         level: "exploration",
-        rule: "alphabet of 26 (v3) / 30 (v5) well-formed packet templates (every packet type either peer could emit, ids 1/2, PUBLISH QoS 0/1/2, a PUBLISH head whose payload is still owed and a payload tail, \
-               acknowledgements of every type, CONNECT/CONNACK, DISCONNECT with/without session expiry, AUTH, PING both directions); every sequence of length <=3 (thorough: <=4) after the handshake against an idle \
+        rule: "alphabet of 27 (v3) / 31 (v5) well-formed packet templates (every packet type either peer could emit, ids 1/2, PUBLISH QoS 0/1/2, a PUBLISH head whose payload is still owed and a payload tail, \
+               acknowledgements of every type, CONNECT (plain and with the largest keep-alive, user name, password)/CONNACK, DISCONNECT with/without session expiry, AUTH, PING both directions); every sequence of length <=3 (thorough: <=4) after the handshake against an idle \
                application, against outstanding QoS1/QoS2/subscribe/unsubscribe sends, against an application whose handlers all stay suspended until the sequence is over, and replacing the handshake; length <=2 (3) against a held QoS 2 receipt, two gated inbound handlers , the outstanding sends in the three rotated orders (each kind oldest) two publishes sent through the non-blocking API whose acknowledgement callback looks at the sink, and a QoS 2 send whose future was dropped after the PUBLISH was written; random sequences of \
                4..12 packets. Oracle: no panic in any task (application futures are polled by the driver), settle reaches a fixed point, at quiescence the connection is ended (at most one Stop) or alive and \
                answering a probe, all input consumed, after the peer closes the connection task finishes and every pending send resolves. Non-trivial = the sequence contains a packet unexpected in its protocol state; \
